@@ -110,12 +110,13 @@ def retry_race(kind, awaited, max_retries, first, slices):
 
 def retry___KIND_____AW_____LO__(max_retries: int, first: int, k1: int, k2: int) -> bool:
     """
-    pre: 1 <= max_retries <= MRMAX and 0 <= first <= FIRSTMAX and __LO__ <= k1 <= __HI__ and 0 <= k2 <= KMAX
+    pre: 1 <= max_retries <= MRMAX and 0 <= first <= FIRSTMAX and __LO__ <= k1 <= __HI__ and 0 <= k2 <= K2MAX
     post: _
     """
     max_retries = pick(max_retries, 1, MRMAX)
+    kk2 = K2STEP * k2          # (symbolic arithmetic under tracing)
     with NoTracing():
-        return retry_race(["mem", "sqlite"][__KIND__], bool(__AW__), max_retries, first, [k1, k2])
+        return retry_race(["mem", "sqlite"][__KIND__], bool(__AW__), max_retries, first, [k1, kk2])
 '''
 
 EXTRA = r'''
@@ -130,7 +131,7 @@ def retry_twin(k1: int) -> bool:
 
 def canary_count_after_requeue(first: int, k1: int, k2: int) -> bool:
     """
-    pre: 0 <= first <= 1 and 0 <= k1 <= KMAX and 0 <= k2 <= KMAX
+    pre: 0 <= first <= 0 and 0 <= k1 <= KMAX and 0 <= k2 <= K2MAX
     post: _
     """
     # canary: a retry that is re-queued BEFORE it is counted must be refuted (the other worker reads a stale count)
@@ -143,9 +144,10 @@ def canary_count_after_requeue(first: int, k1: int, k2: int) -> bool:
         self.app.orchestrator.increment_invocation_retries(invocation_id)
     orig = bo.BaseOrchestrator.set_invocation_retry__gen
     bo.BaseOrchestrator.set_invocation_retry__gen = bad_gen
+    kk2 = K2STEP * k2
     try:
         with NoTracing():
-            return retry_race("mem", False, 1, first, [k1, k2])
+            return retry_race("mem", False, 1, first, [k1, kk2])
     finally:
         bo.BaseOrchestrator.set_invocation_retry__gen = orig
 '''
@@ -158,12 +160,16 @@ def _key_from_replay(args, kwargs, replay_out):
 
 def run(ctx: Ctx) -> None:
     thorough = ctx.tier == "thorough"
-    kmax = 80 if thorough else 45
+    kmax = 80 if thorough else 55   # the holder reaches the re-queue of its first retry after ~47 steps
     mrmax = 2 if thorough else 1
+    # the second runner needs a whole poll + start + body + retry bookkeeping inside its slice (about 80 steps); its slice length is
+    # explored in units of k2step steps (the holder's preemption point k1 is exact)
+    k2step = 2 if thorough else 5
+    k2max = (130 if thorough else 100) // k2step
     head, f = SRC.split("def retry___KIND_____AW_____LO__")
     f = "def retry___KIND_____AW_____LO__" + f
     src, conds = head, []
-    step = 10 if not thorough else 8
+    step = 7 if not thorough else 8
     for kind in (0, 1):
         for aw in (0, 1):
             for lo in range(0, kmax + 1, step):
@@ -171,7 +177,7 @@ def run(ctx: Ctx) -> None:
                 conds.append(Cond(f"retry_{kind}_{aw}_{lo}", "confirm", 2400, keyfn=_key_from_replay))
     src += EXTRA
     conds += [Cond("retry_twin", "refute", 60), Cond("canary_count_after_requeue", "refute", 600)]
-    ctx.ch_batch("c19sched", src.replace("KMAX", str(kmax)).replace("MRMAX", str(mrmax)).replace("FIRSTMAX", "1" if thorough else "0"), conds)
+    ctx.ch_batch("c19sched", src.replace("K2STEP", str(k2step)).replace("K2MAX", str(k2max)).replace("KMAX", str(kmax)).replace("MRMAX", str(mrmax)).replace("FIRSTMAX", "1" if thorough else "0"), conds)
     ctx.functions_encoded += ["DistributedInvocation.run (retry branch) + BaseOrchestrator.set_invocation_retry/set_invocation_exception/get_invocations_to_run (twins), two runners"]
     ctx.bounds["retry race"] = (f"a body that always raises a retriable exception, max_retries 1..{mrmax}; top-level invocation and awaited child (offered through the blocking list); "
-                                f"2 runner actors, {'either actor first' if thorough else 'r1 (the holder) first'}, 2 preemptions with slices 0..{kmax}; both backends")
+                                f"2 runner actors, {'either actor first' if thorough else 'r1 (the holder) first'}, 2 preemptions: holder slice 0..{kmax} (exact), other runner's slice 0..{k2max * k2step} in units of {k2step}; both backends")
